@@ -9,7 +9,7 @@ Quantifier: all index directories and all assigned sets, over repeated cleanups.
 
 Model: C32/Model.lean (cleanup.go's six phases over abstract directory states).  Lemmas: C32/Lemmas, C32/Phases.
 -/
-import ZoektModel.C32.Phases
+import ZoektModel.C32.Keep
 namespace ZoektModel.C32
 
 theorem cleanup_removes_tmps (d : Dir) (a : List Nat) (now : Int) (m : Bool) : (cleanup d a now m).tmps = 0 := by
@@ -95,6 +95,81 @@ theorem unassignedGone_none (d : Dir) (A : List Nat) (now : Int) (m : Bool) (H1 
   · simp [unassigned_unsearchable d A now m H1 H2 id hA]
   · simp
 
+/-- file names are unique within the index directory -/
+def IndexNamesUnique (d : Dir) : Prop := ∀ f ∈ d.index, ∀ g ∈ d.index, f.compound = g.compound → f.key = g.key → f = g
+
+/-- **assigned_kept** (partial): an index file survives cleanup, with every repository that was alive in it still
+    alive, provided every repository alive in it is assigned and consistently named, and no trashed file carries its
+    name.  The two exclusions are exactly the known findings: (a) the file also holds an unassigned or inconsistently
+    named repository — only a compound shard can — and the code then may delete the whole file
+    (`assigned_kept_full_false`); (b) a trashed shard of another repository has the same file name
+    (`restore_overwrites_same_basename`). -/
+theorem assigned_kept_partial (d : Dir) (A : List Nat) (now : Int) (m : Bool) (f : File) (hf : f ∈ d.index)
+    (HU : IndexNamesUnique d)
+    (Hall : ∀ id, aliveIn f id = true → A.contains id = true ∧ consistent d.index id = true)
+    (Hdisj : ∀ g ∈ d.trash, sameBase g f.compound f.key = false) :
+    Kept f (cleanup d A now m).index := by
+  have e : (cleanup d A now m).index =
+      (phase5 now m
+        (phase4 A (phase1 now (getShards d.index false) (getShards d.trash true) d).2
+          (phase2 (getShards d.index false) (phase1 now (getShards d.index false) (getShards d.trash true) d).2 (getTombs d.index))
+          (phase3 m (getShards d.index false) (phase1 now (getShards d.index false) (getShards d.trash true) d).1).1
+          (phase3 m (getShards d.index false) (phase1 now (getShards d.index false) (getShards d.trash true) d).1).2).2
+        (phase4 A (phase1 now (getShards d.index false) (getShards d.trash true) d).2
+          (phase2 (getShards d.index false) (phase1 now (getShards d.index false) (getShards d.trash true) d).2 (getTombs d.index))
+          (phase3 m (getShards d.index false) (phase1 now (getShards d.index false) (getShards d.trash true) d).1).1
+          (phase3 m (getShards d.index false) (phase1 now (getShards d.index false) (getShards d.trash true) d).1).2).1).index := rfl
+  rw [e]
+  -- a shard of the index map that names f's basename belongs to a repository alive in f
+  have hown : ∀ e ∈ getShards d.index false, ∀ s ∈ e.2, ¬ Off f s → aliveIn f e.1 = true := by
+    intro e he s hs hoff
+    obtain ⟨_, _, g, hg, hb, ha⟩ := getShards_sound d.index false e he s hs
+    have hoff' : s.compound = f.compound ∧ s.key = f.key := Classical.not_not.mp hoff
+    rw [sameBase_iff] at hb
+    have : g = f := HU g hg f hf (hb.1.trans hoff'.1) (hb.2.trans hoff'.2)
+    rw [← this]; exact ha
+  have hinT : ∀ e ∈ getShards d.trash true, ∀ s ∈ e.2, s.inTrash = true :=
+    fun e he s hs => (getShards_sound d.trash true e he s hs).2.1
+  have p1 := phase1_facts now (getShards d.index false) (getShards d.trash true) d hinT
+  generalize phase1 now (getShards d.index false) (getShards d.trash true) d = P1 at p1 ⊢
+  have k1 : Kept f P1.1.index := by rw [p1.1]; exact ⟨f, hf, by simp [sameBase], fun _ h => h⟩
+  -- phase 3: an inconsistently named repository is not alive in f, so none of its shards names f
+  have k3 := kept_phase3 (f := f) m (getShards d.index false) P1.1 (by
+    intro e he hc s hs hoff
+    have hal := hown e he s hs (fun h => h hoff)
+    have := consistent_link d.index false e.1 (Hall e.1 hal).2 e he rfl
+    rw [hc] at this; cases this) k1
+  have p3 := phase3_facts m (getShards d.index false) P1.1 (fun e he s hs => (getShards_sound d.index false e he s hs).2.1)
+  generalize phase3 m (getShards d.index false) P1.1 = P3 at k3 p3 ⊢
+  -- phase 4: restored shards carry names of trashed files, none of which is f's
+  have k4 := kept_phase4 (f := f) A P1.2 (phase2 (getShards d.index false) P1.2 (getTombs d.index)) P3.1 P3.2 (by
+    intro e he s hs hoff
+    obtain ⟨_, _, g, hg, hb, _⟩ := getShards_sound d.trash true e (p1.2.2 e he) s hs
+    rw [sameBase_iff] at hb
+    have := Hdisj g hg
+    rw [← hoff.1, ← hoff.2] at this
+    have hb' : sameBase g s.compound s.key = true := by rw [sameBase_iff]; exact hb
+    rw [hb'] at this; cases this) k3
+  have m4 := phase4_map_sub A P1.2 (phase2 (getShards d.index false) P1.2 (getTombs d.index)) P3.1 P3.2
+  generalize phase4 A P1.2 (phase2 (getShards d.index false) P1.2 (getTombs d.index)) P3.1 P3.2 = P4 at k4 m4 ⊢
+  -- phase 5: what is left is not assigned, hence not alive in f
+  apply kept_phase5 now m P4.2 P4.1 _ k4
+  intro e he s hs hoff
+  have h4 := m4 e he
+  have he0 : e ∈ getShards d.index false := by
+    have := h4.1; rw [p3.2.2.2] at this; exact (List.mem_filter.mp this).1
+  have hal := hown e he0 s hs (fun h => h hoff)
+  rw [(Hall e.1 hal).1] at h4; cases h4.2
+
+/-- in particular, with the statement's own predicate: nothing is reported lost for such a repository -/
+theorem assigned_kept_partial_keptIn (d : Dir) (A : List Nat) (now : Int) (m : Bool) (f : File) (hf : f ∈ d.index)
+    (HU : IndexNamesUnique d) (Hall : ∀ id, aliveIn f id = true → A.contains id = true ∧ consistent d.index id = true)
+    (Hdisj : ∀ g ∈ d.trash, sameBase g f.compound f.key = false) (id : Nat) (hid : aliveIn f id = true) :
+    keptIn (cleanup d A now m).index f id = true := by
+  obtain ⟨g, hg, hb, ha⟩ := assigned_kept_partial d A now m f hf HU Hall Hdisj
+  simp only [keptIn, List.any_eq_true]
+  exact ⟨g, hg, by simp [hb, ha id hid]⟩
+
 /-! ### the full statement is false on the model: a compound shard that still holds assigned repositories is deleted -/
 
 /-- DESIGN §8 / known finding C32-compound-shard-deleted-whole, shard merging off: compound {1,2,3}, assigned {1,2} -/
@@ -139,6 +214,19 @@ example : TrashSimple exDir ∧ TrashNamesUnique exDir := by
   · intro f hf g hg h1 h2
     simp only [exDir, List.mem_cons, List.mem_nil_iff, or_false] at hf hg
     rcases hf with rfl | rfl | rfl <;> rcases hg with rfl | rfl | rfl <;> simp_all
+
+/-- the hypotheses of `assigned_kept_partial` hold of the simple shard of repository 5 when 5 is assigned -/
+example : IndexNamesUnique exDir ∧
+    (∀ id, aliveIn (⟨false, 50, 1000, [⟨5, 5, false, 0⟩]⟩ : File) id = true → [5, 1].contains id = true ∧ consistent exDir.index id = true) ∧
+    (∀ g ∈ exDir.trash, sameBase g false 50 = false) := by
+  refine ⟨?_, ?_, by decide⟩
+  · intro f hf g hg h1 h2
+    simp only [exDir, List.mem_cons, List.mem_nil_iff, or_false] at hf hg
+    rcases hf with rfl | rfl | rfl | rfl <;> rcases hg with rfl | rfl | rfl | rfl <;> simp_all
+  · intro id hid
+    have : id = 5 := by have h5 : 5 = id := by simpa [aliveIn] using hid
+                        exact h5.symm
+    subst this; decide
 
 example : (cleanup exDir [1, 3, 6, 7] 100000 true) =
     ⟨[⟨false, 60, 99990, [⟨6, 6, false, 0⟩]⟩, ⟨true, 1, 100000, [⟨1, 1, false, 1⟩, ⟨2, 2, true, 2⟩, ⟨3, 3, false, 3⟩]⟩],
